@@ -136,11 +136,13 @@ Definition cfree (e : expr) : bool := match expr_comments e with [] => true | _ 
 (* Code s: literal layout text.  Opaque e s: the text s that expr_to_source / format_single_line
    printed for the whole expression e (rendered as s; e is kept only so that theorems can say
    which sub-expressions were printed without looking inside).  Comment c.  Nl: "\n". *)
-Inductive piece := Code (s : string) | Opaque (e : expr) (s : string) | Comment (c : string) | Nl.
+Inductive piece :=
+| Code (s : string) | Opaque (e : expr) (s : string) | Comment (c : string) | Nl
+| Relined (e : expr) (s : string).   (* the text of e re-assembled from lines(), see binop_doc *)
 Definition doc := list piece.
 
 Definition render_piece (p : piece) : string :=
-  match p with Code s => s | Opaque _ s => s | Comment c => c | Nl => nl end.
+  match p with Code s => s | Opaque _ s => s | Comment c => c | Nl => nl | Relined _ s => s end.
 Fixpoint render (d : doc) : string :=
   match d with [] => "" | p :: r => render_piece p +++ render r end.
 
@@ -151,10 +153,12 @@ Definition doc_comments (d : doc) : list string := flat_map piece_comments d.
 (* the expressions printed opaquely, and the comments the document accounts for: those it
    shows plus those carried by the opaquely printed expressions *)
 Definition piece_opaque (p : piece) : list expr :=
-  match p with Opaque e _ => [e] | _ => [] end.
+  match p with Opaque e _ | Relined e _ => [e] | _ => [] end.
 Definition doc_opaque (d : doc) : list expr := flat_map piece_opaque d.
 Definition piece_all_comments (p : piece) : list string :=
-  match p with Comment c => [c] | Opaque e _ => expr_comments e | _ => [] end.
+  match p with Comment c => [c] | Opaque e _ | Relined e _ => expr_comments e | _ => [] end.
+Definition doc_relined (d : doc) : list expr :=
+  flat_map (fun p => match p with Relined e _ => [e] | _ => [] end) d.
 Definition doc_all_comments (d : doc) : list string := flat_map piece_all_comments d.
 
 (* the same document as a list of lines *)
@@ -218,8 +222,45 @@ Record oracles := Oracles {
   o_needs_parens : binop -> expr -> bool -> bool;       (* needs_parens_in_binop *)
   o_record_key : string -> string;                      (* format_record_key *)
   o_postfix_parens : expr -> bool;                      (* needs_parens_in_postfix *)
-  o_lambda_body_parens : expr -> bool                   (* lambda_body_needs_parens *)
+  o_lambda_body_parens : expr -> bool;                  (* lambda_body_needs_parens *)
+  o_unary_parens : expr -> bool;                        (* needs_parens_in_unary *)
+  (* not an oracle but a version switch: false = formatter.rs as it is, true = formatter.rs with
+     fixes/C09-nested-comments.diff (expressions that contain comments are never printed
+     through expr_to_source).  Every theorem is stated for both versions. *)
+  o_keep_nested_comments : bool
 }.
+
+Definition unary_op_str (op : unop) : string :=
+  match op with Negate => "-" | Not => "!" | Invert => "~" end.
+
+(* contains_comments (fixes/C09-nested-comments.diff): a list, record or do-block anywhere inside
+   the expression carries a comment *)
+Fixpoint contains_comments (e : expr) : bool :=
+  match e with
+  | EList items => existsb (fun c => has_comments c || contains_comments (cnode c)) items
+  | ERec entries =>
+      existsb (fun c => has_comments c ||
+                        match cnode c with
+                        | REntry (KDyn k) v => contains_comments k || contains_comments v
+                        | REntry (KSpread k) v => contains_comments k || contains_comments v
+                        | REntry _ v => contains_comments v
+                        end) entries
+  | ELam _ body => contains_comments body
+  | ECond c t f => contains_comments c || contains_comments t || contains_comments f
+  | EDo stmts ret =>
+      existsb (fun c => has_comments c || contains_comments (cnode c)) stmts
+      || has_comments ret || contains_comments (cnode ret)
+  | EAssign _ v => contains_comments v
+  | EOutput x => contains_comments x
+  | ECall f args => contains_comments f || existsb contains_comments args
+  | EAccess a i => contains_comments a || contains_comments i
+  | EDot a _ => contains_comments a
+  | EBin _ l r => contains_comments l || contains_comments r
+  | EUn _ a => contains_comments a
+  | EFact a => contains_comments a
+  | ESpread a => contains_comments a
+  | _ => false
+  end.
 
 (* formatted.starts_with('-') *)
 Definition starts_with_minus (s : string) : bool :=
@@ -232,6 +273,8 @@ Section Fmt.
   Local Notation record_key := (o_record_key O).
   Local Notation postfix_parens := (o_postfix_parens O).
   Local Notation lambda_body_parens := (o_lambda_body_parens O).
+  Local Notation unary_parens := (o_unary_parens O).
+  Local Notation keep := (o_keep_nested_comments O).
 
   (* format_single_line (formatter.rs:45-93) and format_record_entry_single_line *)
   Fixpoint fsl (e : expr) : string :=
@@ -380,7 +423,7 @@ Section Fmt.
                (no "\r\n", no trailing "\n") the result is the document itself, otherwise the
                re-assembled text is kept as one opaque piece *)
             left ++ [Code (" " +++ op_str +++ " ")] ++
-            (if String.eqb (relined rs) rs then right else [Opaque r (relined rs)])
+            (if String.eqb (relined rs) rs then right else [Relined r (relined rs)])
           else left ++ [Code (" " +++ op_str +++ " ")] ++ right
         else
           left ++ [Nl; ind i; Code (op_str +++ " ")] ++ wrap_parens rp (rec r i)
@@ -414,7 +457,20 @@ Section Fmt.
       | ECall f args => call_doc f args i
       | EBin op l r => binop_doc op l r i
       | EDo stmts ret => do_doc stmts ret i
-      | _ => [Opaque e (e2s e)]
+      | _ =>
+          (* with the fix: an operand that contains comments is laid out, not printed through
+             expr_to_source *)
+          if keep && contains_comments e then
+            match e with
+            | EUn op x => [Code (unary_op_str op)] ++ wrap_parens (unary_parens x) (rec x i)
+            | EFact x => wrap_parens (postfix_parens x) (rec x i) ++ [Code "!"]
+            | EAccess a ix =>
+                wrap_parens (postfix_parens a) (rec a i) ++ [Code "["] ++ rec ix i ++ [Code "]"]
+            | EDot a field => wrap_parens (postfix_parens a) (rec a i) ++ [Code ("." +++ field)]
+            | ESpread x => [Code "..."] ++ rec x i
+            | _ => [Opaque e (e2s e)]
+            end
+          else [Opaque e (e2s e)]
       end.
 
     (* the single-line test of format_expr_impl (27-38) *)
@@ -427,7 +483,9 @@ Section Fmt.
       match e with
       | ELam args body => lambda_doc args body i
       | EDo stmts ret => multiline_doc e i
-      | _ => if fits_single e i then [Opaque e (fsl e)] else multiline_doc e i
+      | _ =>
+          if fits_single e i && negb (keep && contains_comments e) then [Opaque e (fsl e)]
+          else multiline_doc e i
       end.
   End Layouts.
 
@@ -492,6 +550,7 @@ Fixpoint wf_doc (d : doc) : Prop :=
   | [] => True
   | Code s :: r => neutral s /\ wf_doc r
   | Opaque _ s :: r => neutral s /\ wf_doc r
+  | Relined _ s :: r => neutral s /\ wf_doc r
   | Nl :: r => wf_doc r
   | Comment c :: r =>
       is_comment_text c /\ match r with [] => True | Nl :: _ => wf_doc r | _ => False end
@@ -814,9 +873,6 @@ Section E2S.
   Local Notation np := (needs_parens_impl opinfo).
   Local Notation parens_if := (fun (b : bool) (s : string) => if b then "(" +++ s +++ ")" else s).
 
-  Definition unary_op_str (op : unop) : string :=
-    match op with Negate => "-" | Not => "!" | Invert => "~" end.
-
   Fixpoint e2s_impl (e : expr) : string :=
     match e with
     | ENum x => num_text x
@@ -872,16 +928,17 @@ Definition num_text_tbl (tbl : list (Z * string)) (x : num) : string :=
   match find (fun kv => Z.eqb (fst kv) b) tbl with Some kv => snd kv | None => "?" end.
 
 (* ------------------------------------------------------------------ running the model *)
-Definition oracles_impl (opinfo : list (nat * bool)) (ntbl : list (Z * string)) : oracles :=
+Definition oracles_impl (fixed : bool) (opinfo : list (nat * bool)) (ntbl : list (Z * string)) : oracles :=
   Oracles (e2s_impl (num_text_tbl ntbl) opinfo) (needs_parens_impl opinfo) record_key_impl
-          (postfix_parens_impl opinfo) (lambda_body_parens_impl opinfo).
+          (postfix_parens_impl opinfo) (lambda_body_parens_impl opinfo) (unary_parens_impl opinfo) fixed.
 
 Section Run.
+  Variable fixed : bool.          (* false: /repo as it is; true: with fixes/C09-nested-comments.diff *)
   Variable opinfo : list (nat * bool).
   Variable ntbl : list (Z * string).
   Definition run_lib (width : option nat) (p : list stmt) : option doc :=
-    format_lib (oracles_impl opinfo ntbl) width p.
-  Definition run_cli (p : list stmt) : doc := format_cli (oracles_impl opinfo ntbl) p.
+    format_lib (oracles_impl fixed opinfo ntbl) width p.
+  Definition run_cli (p : list stmt) : doc := format_cli (oracles_impl fixed opinfo ntbl) p.
 End Run.
 
 (* "<hex text> <shown comments> <comments under opaquely printed expressions>" *)
